@@ -7,7 +7,7 @@ PROFILE = {"publish": 8, "ack": 4, "inbound": 3, "connect": 30, "fault": 5, "res
 
 
 def keep(l):
-    return l.startswith(("ev dial", "ev w ", "ev close", "rs ", "ret ", "blocked"))
+    return l.startswith(("ev dial", "ev w ", "ev close", "rs ", "ret ", "blocked", "sig "))
 
 
 def mon_setup(tr, sc):
